@@ -975,3 +975,6 @@ func constantInt(c *types.Const) (int64, bool) {
 	v, ok := constant.Int64Val(c.Val())
 	return v, ok
 }
+
+// factsAtSelf: no extra facts (placeholder for symmetry: facts that hold on entry of b are factsAt(b)).
+func factsAtSelf(b *ssa.BasicBlock) []Atom { return nil }
